@@ -1,10 +1,9 @@
 SPECIFICATION TSpec
 CONSTANT MaxKey = 9
 CONSTANT MaxSize = 11
-INVARIANT EveryEntryOnceInOrder
 INVARIANT PageLen
 INVARIANT FlagsExact
+INVARIANT EveryEntryOnceInOrder
 INVARIANT ErrorsOnlyForBadArgs
-INVARIANT RejectsRefused
 POSTCONDITION TraceAccepted
 CHECK_DEADLOCK FALSE
